@@ -109,6 +109,9 @@ static void *vpd_memcpy_var(void *d, const void *s, size_t n)
 {
 	size_t i;
 	vpd_check_write(d, n);
+#ifdef VPD_CLONE_COPY     /* request_clone(): memcpy(new, old, old->request_size) -- a concrete size in the states of C34/C38 */
+	if (n == sizeof(struct request) + VPD_REQDATA) { *(struct vpd_request_obj *)d = *(const struct vpd_request_obj *)s; return d; }
+#endif
 	for (i = 0; i < n; i++) ((unsigned char *)d)[i] = ((const unsigned char *)s)[i];
 	return d;
 }
